@@ -10,7 +10,7 @@ from pbt.core import call
 PROP = "C20"
 TECHNIQUE = "metamorphic testing: Hypothesis-generated (forecast, catalog, region, catalog forecast) inputs re-run under generated permutations of events, synthetic catalogs and region cells (+rate rows); outcomes compared (to rounding / as multisets / bit-for-bit with a fixed seed)"
 RULE = ("one case = gridded forecast pair + observed catalog + catalog forecast on a generated region, with three permutations: (a) of the "
-        "observed events, (b) of the synthetic catalogs, (c) of the region's cells together with the rate rows. Every public *_test of the "
+        "observed events, (b) of the synthetic catalogs, (c) of the region's cells together with the rate rows. 1 case in 3 hands the same region-less synthetic catalog objects to the forecasts of the base case and of all variants. Every public *_test of the "
         "Poisson, binary, Brier and catalog evaluation modules is run before and after. (a): statistic / analytic quantiles equal to 1e-9, "
         "seeded simulation-based results bit-identical; (b), (c): statistics equal to 1e-9, simulation-free distributions equal as sorted "
         "multisets. Non-trivial = a permutation moving >= 2 elements and a catalog with >= 2 events in distinct cells; distinct = canonical JSON.")
